@@ -141,10 +141,10 @@ def draw_points(kind, case, sizes, reseed=False):
     hist = np.zeros((0, case["d"]))
     outs = []
     for b in sizes:
-        s.batch_size = b
         if case["via"] == "sample":
+            s.batch_size = b
             pts = s.sample(sp, hist, np.zeros(len(hist)))
-        else:
+        else:  # direct draws of sizes that differ from the configured batch size (as the de-duplication redraws do)
             pts = s.sample_batch(b, sp, hist, np.zeros(len(hist)))
         outs.append(pts)
         hist = np.vstack((hist, pts))
@@ -220,7 +220,48 @@ def check_sampler(ctx: Ctx, case):
             ctx.fail("C13/rseq-range", "points outside the unit box", sub, case)
 
 
-SUBCHECKS = {"halton_fn": check_fn, "primes": check_primes, "halton_sampler": check_sampler,
+@st.composite
+def dedup_cases(draw):
+    n = draw(st.integers(2, 8))
+    return {"d": draw(st.integers(1, 6)), "seed": draw(st.integers(0, 2**32 - 2)), "n": n,
+            "known": draw(st.lists(st.integers(0, n - 1), min_size=1, max_size=n, unique=True)),
+            "more": draw(st.lists(st.integers(1, 6), min_size=1, max_size=3))}
+
+
+def check_dedup_continuation(ctx: Ctx, case):
+    """Some points of the first batch are already in the history: sample() redraws exactly those; the sequence must go on
+    without gaps or repeats through the redraws and into the following batches."""
+    from black_it.samplers.halton import HaltonSampler
+
+    sub = "halton_dedup"
+    d, n = case["d"], case["n"]
+    sp = space(d)
+    ctx.count(sub, case, len(case["known"]) < n, [f"known={len(case['known'])}/{n}"])
+    with guard(ctx, "C13/exception", sub, case):
+        twin = HaltonSampler(n, random_state=case["seed"])
+        first = twin.sample_batch(n, sp, np.zeros((0, d)), np.zeros(0))
+        hist = first[sorted(case["known"])]
+        s = HaltonSampler(n, random_state=case["seed"])
+        out = [s.sample(sp, hist, np.zeros(len(hist)))]
+        h = np.vstack((hist, out[0]))
+        for b in case["more"]:
+            s.batch_size = b
+            o = s.sample(sp, h, np.zeros(len(h)))
+            out.append(o)
+            h = np.vstack((h, o))
+    idx0 = bitrev(int(round(first[0, 0] / STEP)))
+    got = [bitrev(int(round(v / STEP))) for o in out for v in o[:, 0]]
+    k = len(case["known"])
+    kept = [idx0 + i for i in range(n) if i not in case["known"]]
+    expect = sorted(kept + [idx0 + n + i for i in range(k)]) + [idx0 + n + k + i for i in range(sum(case["more"]))]
+    if sorted(got[:n]) + got[n:] != expect:
+        ctx.fail("C13/halton-gap", f"first batch {n} points of which {k} were already in the history (redrawn), then batches "
+                 f"{case['more']}: sequence indices returned {got} (relative to start {idx0}: {[g - idx0 for g in got]}), expected "
+                 f"{[e - idx0 for e in expect]} - the sequence must continue where the redraws ended, without gaps or repeats",
+                 sub, case)
+
+
+SUBCHECKS = {"halton_dedup": check_dedup_continuation, "halton_fn": check_fn, "primes": check_primes, "halton_sampler": check_sampler,
              "rseq_sampler": check_sampler}
 
 
@@ -229,3 +270,4 @@ def run(ctx: Ctx):
     drive(ctx, "primes", prime_cases(), check_primes, ctx.n(1500, 10000))
     drive(ctx, "halton_sampler", sampler_cases("halton"), check_sampler, ctx.n(1200, 8000))
     drive(ctx, "rseq_sampler", sampler_cases("rseq"), check_sampler, ctx.n(1500, 10000))
+    drive(ctx, "halton_dedup", dedup_cases(), check_dedup_continuation, ctx.n(800, 8000))
